@@ -41,16 +41,17 @@ NOT_A_LISTING: Dict[Tuple[str, str], str] = {
 }
 
 # (function, variable) pairs that build one listing entry and must carry the private marker
-MARKER_SITES = [
-    ('pydoctor.templatewriter.util.css_class', 'o'),
-    ('pydoctor.templatewriter.summary.moduleSummary', 'module'),
-    ('pydoctor.templatewriter.summary.moduleSummary', 'm'),
-    ('pydoctor.templatewriter.summary.subclassesFrom', 'cls'),
-    ('pydoctor.templatewriter.summary.LetterElement.names', 'obs'),
-    ('pydoctor.templatewriter.summary.LetterElement.names', 'ob'),
-    ('pydoctor.templatewriter.pages.sidebar.ContentItem.class_', 'self.child'),
-    ('pydoctor.templatewriter.search.get_all_documents_flattenable', 'ob'),
-]
+# listing-entry constructors and how many private-marker emissions each contains today (confirmed by reading):
+# one per kind of entry the function builds (moduleSummary: the module row and the compact sub-module spans;
+# LetterElement.names: the name item and the per-object sub-item)
+MARKER_SITES = {
+    'pydoctor.templatewriter.util.css_class': 1,
+    'pydoctor.templatewriter.summary.moduleSummary': 2,
+    'pydoctor.templatewriter.summary.subclassesFrom': 1,
+    'pydoctor.templatewriter.summary.LetterElement.names': 2,
+    'pydoctor.templatewriter.pages.sidebar.ContentItem.class_': 1,
+    'pydoctor.templatewriter.search.get_all_documents_flattenable': 1,
+}
 
 
 def _is_doc_type(repo: Repo, t) -> bool:
@@ -358,15 +359,15 @@ def run(repo: Repo, chk: Check, thorough: bool = False) -> None:
     chk.require('R12.3', 1)
 
     # ------------------------------------------------------------------ R12.4 private marker
-    for q, var in MARKER_SITES:
+    for q, want in MARKER_SITES.items():
         f = repo.func(q)
-        if not _mentions_var(f, var):
-            chk.error(f'R12.4: {q} no longer has a variable {var}: the marker-site table is stale')
-            continue
-        ok, why = _has_private_marker(repo, f, var)
-        chk.ob('R12.4', f'{q} :: {var}', ok, why, f.loc)
+        sites = _private_marker_sites(f)
+        chk.ob('R12.4', f'{q} :: private marker at every entry it builds', len(sites) >= want,
+               f'{len(sites)} emission(s): ' + '; '.join(sites)[:200] if len(sites) >= want else
+               f'{len(sites)} privacy-guarded emission(s) of the private marker, {want} kinds of listing entry are built here: a private object is '
+               f'listed without the marker the public/private toggle relies on ({"; ".join(sites)[:160]})', f.loc)
     # a marker accumulated in a local variable must survive to the return: no plain re-assignment after it
-    for q in sorted({q for q, _ in MARKER_SITES}):
+    for q in sorted(MARKER_SITES):
         f = repo.func(q)
         for vname, marker_stmt in _marker_accumulators(f):
             cfg = CFG(f)
@@ -378,7 +379,7 @@ def run(repo: Repo, chk: Check, thorough: bool = False) -> None:
                    f'after the private marker is added to `{vname}` it is only extended, never overwritten' if not kills else
                    f'`{norm(kills[0])[:50]}` (line {kills[0].lineno}) overwrites `{vname}` after the private marker was added: the entry loses the marker',
                    repo.loc(f.mod, marker_stmt))
-    chk.require('R12.4', 10)
+    chk.require('R12.4', 8)
 
 
 # ----------------------------------------------------------------------------------------------------------
@@ -514,9 +515,24 @@ def _local_dependencies(f: Func, e: Optional[ast.AST]) -> Set[ast.AST]:
     return out
 
 
-def _mentions_var(f: Func, var: str) -> bool:
-    return any(dotted(n) == var for n in f.walk() if isinstance(n, (ast.Name, ast.Attribute))) or \
-        var in [p.arg for p in f.params()]
+def _private_marker_sites(f: Func) -> List[str]:
+    """`if <privacy test>: ... 'private' ...` branches, plus emissions of the privacy class name itself."""
+    out: List[str] = []
+
+    def is_priv_test(t: ast.AST) -> bool:
+        for n in ast.walk(t):
+            if isinstance(n, ast.Attribute) and n.attr in ('isPrivate', 'privacyClass'):
+                return True
+            if isinstance(n, ast.Call) and call_name(n) in ('isPrivate', 'isClassNodePrivate'):
+                return True
+        return False
+    for n in f.walk():
+        if isinstance(n, ast.If) and is_priv_test(n.test):
+            if any(isinstance(c, ast.Constant) and isinstance(c.value, str) and 'private' in c.value for st in n.body for c in ast.walk(st)):
+                out.append(f'if {norm(n.test)[:40]}')
+        if isinstance(n, ast.Attribute) and n.attr == 'name' and isinstance(n.value, ast.Attribute) and n.value.attr == 'privacyClass':
+            out.append(f'{norm(n)[:40]} emitted')
+    return out
 
 
 def _marker_accumulators(f: Func) -> List[Tuple[str, ast.stmt]]:
@@ -533,33 +549,3 @@ def _marker_accumulators(f: Func) -> List[Tuple[str, ast.stmt]]:
         if any(isinstance(c, ast.Constant) and isinstance(c.value, str) and 'private' in c.value for c in ast.walk(n.value)):
             out.append((tgt, n))
     return out
-
-
-def _has_private_marker(repo: Repo, f: Func, var: str) -> Tuple[bool, str]:
-    """A privacy test on `var` controls the emission of a 'private' literal, or the privacy name is emitted."""
-    def is_priv_test(t: ast.AST) -> bool:
-        bound = {x.id for c in ast.walk(t) if isinstance(c, ast.comprehension) for x in ast.walk(c.target) if isinstance(x, ast.Name)}
-        for n in ast.walk(t):
-            if var in bound and not isinstance(n, ast.comprehension):
-                continue
-            if isinstance(n, ast.Attribute) and n.attr in ('isPrivate', 'privacyClass') and dotted(n.value) == var:
-                return True
-            if isinstance(n, ast.Call) and call_name(n) in ('isPrivate', 'isClassNodePrivate') and \
-                    any(dotted(a) == var or (isinstance(a, ast.Name) and a.id == var) for a in n.args):
-                return True
-            # all(isPrivate(ob) for ob in obs)
-            if isinstance(n, ast.comprehension) and dotted(n.iter) == var:
-                return True
-        return False
-    for n in f.walk():
-        if isinstance(n, ast.If) and is_priv_test(n.test):
-            for st in n.body:
-                for c in ast.walk(st):
-                    if isinstance(c, ast.Constant) and isinstance(c.value, str) and 'private' in c.value:
-                        return True, f'`if {norm(n.test)[:50]}` emits the literal {c.value!r}'
-    # the privacy name itself is emitted (search documents)
-    for n in f.walk():
-        if isinstance(n, ast.Attribute) and n.attr == 'name' and isinstance(n.value, ast.Attribute) and \
-                n.value.attr == 'privacyClass' and dotted(n.value.value) == var:
-            return True, 'the privacy class name of the object is emitted in the record'
-    return False, f'no branch on the privacy of `{var}` emits the private marker'
